@@ -338,7 +338,9 @@ def uninterpreted_gamma(ctx_getter=cur):
     """a custom gamma callback: an arbitrary function of its arguments with
     value >= 0 and no side effect (A-gamma).  The team argument enters through
     the team's index."""
-    def code_side(c, k, mu, sigma_squared, team, rank):
+    def code_side(c, k, mu, sigma_squared, team, rank, /):
+        # positional-only: the callback contract is six positional arguments; a
+        # model that calls it by keyword breaks user callbacks with their own names
         # `team` is the list of rating objects of team i: identify it by index
         idx = getattr(team, "_pyvc_index", None)
         if idx is None:
